@@ -76,7 +76,11 @@ func solveAll(d *Driver, fvcs []*FuncVC, dir string, timeoutMs int, keepText boo
 				sem <- struct{}{}
 				defer func() { <-sem }()
 				txt := d.QueryText(f.VC, o)
-				r := runQuery(dir, o.Name, txt, timeoutMs)
+				tmo := timeoutMs
+				if o.Expect == "sat" && tmo > 3000 {
+					tmo = 3000 // vacuity covers: a short budget is enough, "unknown" is not a failure
+				}
+				r := runQuery(dir, o.Name, txt, tmo)
 				res := &oblResult{O: o, R: r, VC: f.VC}
 				if keepText {
 					res.Txt = txt
